@@ -15,6 +15,9 @@ package main
 //	                                       external = round en of chain e holding x*)
 //	snap s c r ts topo k t1..tk          Node.TopoWrite -> Store.WriteSnapshot
 //	mark s                               Node.reloadConsensusState -> Store.WriteConsensusSnapshot
+//	fill k t0 s0 d0 ts0 o0 m c1..cm      k times (tx, lock, wtx, snap) of a one-output deposit, ids
+//	                                       t0+j / s0+j, deposit key d0+j, timestamp ts0+j, order o0+j,
+//	                                       chain c[j mod m], each in that chain's head round
 //	cut                                  stop here: close, copy the directory, reopen the copy,
 //	                                       kernel.SetupNode, observe; the original run goes on
 //
@@ -103,7 +106,7 @@ func (p *rcProxy) WriteSnapshot(s *common.SnapshotWithTopologicalOrder, signers 
 
 type rcTxDef struct {
 	kind, ref0, outs, key int
-	inputs               [][2]int
+	inputs                [][2]int
 }
 
 type rcWorld struct {
@@ -156,8 +159,13 @@ func rcGenesis(n int) (*common.Genesis, []common.Address, []common.Address) {
 	return gns, signers, payees
 }
 
+// rcSync: per-commit fsync of the snapshots database (production setting). The long-history
+// cases (`genesis n 0`) switch it off: thousands of commits, and the crash image is copied by
+// the same process, which sees every write through the page cache either way.
+var rcSync = true
+
 func rcOpen(custom *config.Custom, dir string) *storage.BadgerStore {
-	st, err := storage.VerifNewBadgerStore(custom, dir, 8<<20)
+	st, err := storage.VerifC21NewBadgerStore(custom, dir, 8<<20, rcSync)
 	if err != nil {
 		panic("harness: open badger: " + err.Error())
 	}
@@ -612,31 +620,76 @@ func (w *rcWorld) restart() rcObs {
 
 // newest consensus-class snapshot in the topology of the live store (Go-side oracle for C21)
 func (w *rcWorld) newestConsensus() (int, uint64) {
-	snaps, txs, err := w.badger.ReadSnapshotWithTransactionsSinceTopology(0, 500)
-	if err != nil {
-		panic(err)
-	}
 	best, bts := 0, uint64(0)
-	for i, s := range snaps {
-		if len(txs[i]) != 1 {
-			continue
+	for off := uint64(0); ; {
+		snaps, txs, err := w.badger.ReadSnapshotWithTransactionsSinceTopology(off, 500)
+		if err != nil {
+			panic(err)
 		}
-		switch txs[i][0].TransactionType() {
-		case common.TransactionTypeMint, common.TransactionTypeNodePledge, common.TransactionTypeNodeCancel,
-			common.TransactionTypeNodeAccept, common.TransactionTypeNodeRemove,
-			common.TransactionTypeCustodianUpdateNodes, common.TransactionTypeCustodianSlashNodes:
-		default:
-			if len(txs[i][0].Inputs) == 1 && txs[i][0].Inputs[0].Genesis != nil &&
-				txs[i][0].Outputs[0].Type == common.OutputTypeCustodianUpdateNodes {
-				break
+		if len(snaps) == 0 {
+			return best, bts
+		}
+		for i, s := range snaps {
+			if len(txs[i]) != 1 {
+				continue
 			}
-			continue
+			switch txs[i][0].TransactionType() {
+			case common.TransactionTypeMint, common.TransactionTypeNodePledge, common.TransactionTypeNodeCancel,
+				common.TransactionTypeNodeAccept, common.TransactionTypeNodeRemove,
+				common.TransactionTypeCustodianUpdateNodes, common.TransactionTypeCustodianSlashNodes:
+			default:
+				if len(txs[i][0].Inputs) == 1 && txs[i][0].Inputs[0].Genesis != nil &&
+					txs[i][0].Outputs[0].Type == common.OutputTypeCustodianUpdateNodes {
+					break
+				}
+				continue
+			}
+			if s.Timestamp >= bts {
+				best, bts = w.snapId[s.PayloadHash()], s.Timestamp
+			}
 		}
-		if s.Timestamp >= bts {
-			best, bts = w.snapId[s.PayloadHash()], s.Timestamp
+		off = snaps[len(snaps)-1].TopologicalOrder + 1
+	}
+}
+
+// fill: k single-deposit snapshots, round-robin over the given chains, each written the way
+// the kernel writes one (LockInputs, WriteTransaction, TopoWrite): 3k storage calls reported
+// as one line, so that histories longer than the startup walk's page size stay affordable.
+// Returns the status of the first call that did not commit.
+func (w *rcWorld) fill(a []int) string {
+	k, t0, s0, d0, ts0, o0, m := a[0], a[1], a[2], a[3], a[4], a[5], a[6]
+	chains := a[7 : 7+m]
+	heads := map[int]*common.Round{}
+	for j := 0; j < k; j++ {
+		t, c := t0+j, chains[j%m]
+		d := &rcTxDef{kind: rcKindDeposit, outs: 1, key: d0 + j}
+		tx := w.build(t, d)
+		w.defs[t], w.txs[t], w.txId[tx.PayloadHash()] = d, tx, t
+		if err := tx.LockInputs(w.proxy, false); err != nil {
+			return "reject"
+		}
+		if err := w.proxy.WriteTransaction(tx); err != nil {
+			return "reject"
+		}
+		if heads[c] == nil {
+			h, err := w.badger.ReadRound(w.nodeIds[c])
+			if err != nil || h == nil {
+				panic("harness: no head round")
+			}
+			heads[c] = h
+		}
+		snap := &common.Snapshot{Version: common.SnapshotVersionCommonEncoding, NodeId: w.nodeIds[c],
+			RoundNumber: heads[c].Number, References: heads[c].References, Timestamp: w.ts(ts0 + j),
+			Signature: &crypto.CosiSignature{Mask: 1}}
+		snap.AddTransaction(tx.PayloadHash())
+		snap.Hash = snap.PayloadHash()
+		w.snaps[s0+j], w.snapId[snap.Hash] = snap, s0+j
+		got := w.node.TopoWrite(snap, []crypto.Hash{snap.NodeId})
+		if int(got.TopologicalOrder) != o0+j {
+			panic(fmt.Sprintf("harness: topology order %d, generator expected %d", got.TopologicalOrder, o0+j))
 		}
 	}
-	return best, bts
+	return "ok"
 }
 
 func rcExec(sub string) func(st *State, line string) Result {
@@ -652,7 +705,9 @@ func rcExec(sub string) func(st *State, line string) Result {
 			return res
 		}
 		if f[0] == "genesis" {
-			w := rcNewWorld(st, rcInts(f[1:])[0])
+			g := rcInts(f[1:])
+			rcSync = len(g) < 2 || g[1] != 0
+			w := rcNewWorld(st, g[0])
 			res.Out = "ok " + rcDigest(w.badger)
 			return res
 		}
@@ -716,6 +771,8 @@ func rcExec(sub string) func(st *State, line string) Result {
 				if err := w.node.VerifReloadConsensusState(s, w.txs[w.txId[s.Transactions[0]]]); err != nil {
 					return "reject"
 				}
+			case "fill":
+				return w.fill(a)
 			case "cut":
 				return "cut"
 			default:
@@ -729,7 +786,7 @@ func rcExec(sub string) func(st *State, line string) Result {
 		if out == "cut" {
 			return w.observeCut(sub, &res)
 		}
-		if f[0] != "tx" && !panicked && w.proxy.mutations-before > 1 {
+		if f[0] != "tx" && f[0] != "fill" && !panicked && w.proxy.mutations-before > 1 {
 			panic(fmt.Sprintf("harness: op %q made %d mutating store calls", f[0], w.proxy.mutations-before))
 		}
 		if panicked {
@@ -1001,7 +1058,74 @@ func (g *rcGen) consensus(a int) {
 	}
 }
 
+// fill emits one `fill` line: k cheap deposit snapshots round-robin over the chains other than a
+func (g *rcGen) fill(k, a int) {
+	if k == 0 {
+		return
+	}
+	var chains []int
+	for c := 0; c < g.n; c++ {
+		if c != a {
+			chains = append(chains, c)
+		}
+	}
+	g.now += 1_000_000
+	g.op("fill %d %d %d %d %d %d %d %s", k, g.nextTx, g.nextSnap, g.depKey+1, g.now, g.nextTop, len(chains), rcJoin(chains))
+	for j := 0; j < k; j++ {
+		c := chains[j%len(chains)]
+		if len(g.cur[c]) == 0 {
+			g.curStart[c] = g.now + j
+		}
+		g.cur[c] = append(g.cur[c], g.nextSnap+j)
+		g.uniq[[2]int{c, g.nextTx + j}] = true
+	}
+	g.nextTx, g.nextSnap, g.nextTop, g.depKey, g.now = g.nextTx+k, g.nextSnap+k, g.nextTop+k, g.depKey+k, g.now+k
+	g.snapCount += k
+}
+
+// rcGenLong: [a marked consensus operation] [A ordinary snapshots] one consensus snapshot whose
+// marker write is still outstanding, B ordinary snapshots of other chains, stop, restart; then
+// the marker write, stop, restart. With B > 500 the unrecorded snapshot is more than one page
+// behind the last topology entry, with A > 500 more than one page ahead of the recorded marker.
+func rcGenLong(r *Rand, a, b int) []string {
+	g := newRcGen(r, 7, 0, 1)
+	g.lines[1] = "genesis 7 0"
+	ch := g.r.Intn(g.n)
+	if g.r.Bool() {
+		g.consensus(g.r.Intn(g.n))
+	}
+	g.fill(a, ch)
+	g.mintBatch++
+	t := g.def(rcKindMint, g.lastConsTx, 1, g.mintBatch, nil)
+	g.op("lock %d", t)
+	g.op("wtx %d", t)
+	g.now += 1_000_000
+	s := g.snap(ch, []int{t})
+	g.lastConsTx = t
+	g.fill(b, ch)
+	g.lines = append(g.lines, "cut")
+	g.op("mark %d", s)
+	g.fill(g.r.Range(0, 3), ch)
+	g.lines = append(g.lines, "cut")
+	return g.lines
+}
+
 func rcGenCase(r *Rand, i int, tier string) []string {
+	// long histories (A ordinary snapshots between the recorded marker and the unrecorded
+	// consensus snapshot, B after it): thorough runs every shape for every seed, quick the one
+	// just past the page size and one other shape
+	long := [][2]int{{r.Intn(4), 501}, {r.Intn(4), 499}, {r.Intn(4), 500}, {r.Intn(4), 1000 + r.Intn(3)*100},
+		{Pick(r, []int{501, 1001, 1200}), r.Intn(3)}, {Pick(r, []int{499, 500, 1001}), Pick(r, []int{501, 1001})}}
+	if tier == "thorough" && i < len(long) {
+		return rcGenLong(r, long[i][0], long[i][1])
+	}
+	if tier != "thorough" && i < 2 {
+		k := 0
+		if i == 1 {
+			k = 1 + r.Intn(len(long)-1)
+		}
+		return rcGenLong(r, long[k][0], long[k][1])
+	}
 	num, den := 1, 4
 	steps := r.Range(3, 7)
 	if tier == "thorough" {
